@@ -23,7 +23,7 @@ def check(tier, replay):
               ("random programs of 28 calls (simulate), the 15 calls with known findings left out so that the programs run to their end", "Gen_ReadOnly.tla", "Gen_ReadOnly_sim.cfg", "sim", {"num_quick": 600, "num": 20000, "depth": 30}),
               ("random programs of 28 calls over the full alphabet", "Gen_ReadOnly.tla", "Gen_ReadOnly_simall.cfg", "sim", {"num_quick": 200, "num": 5000, "depth": 30})],
         mutators={"Mutate", "Query", "RwCycle"}, need_actions=["OpenRO", "CloseRO", "RwCycle"],
-        tv_quick=6000, sig_fn=patterns, drive_timeout=120,
+        tv_quick=6000, sig_fn=patterns, drive_timeout=120, level="exploration",
         assumptions=["intact = sha1 of every file in the working directory (the HDF file and the external files of its elements and datasets) equals the value at session start, and no file appeared or vanished; recomputed after every call",
                      "the classification of calls into queries and mutators is the specification's (specs/ReadOnly.tla); in-memory tuning calls (SDsetfillmode, SDsetchunkcache, Hcache, GRreqimageil) are queries",
                      "a mutator that wrongly returns a handle is released at the end of the session"])
